@@ -1312,6 +1312,32 @@ val nd2_seg :
 val nd2_segs :
   envcfg -> json -> st2 -> seg list -> node list -> (node list * st2) result
 
+type gnode = key list * nat
+
+val gchildren : graph -> gnode -> gnode list
+
+val g_isobj : graph -> gnode -> bool
+
+val g_iscont : graph -> gnode -> bool
+
+type ggen_state =
+| GUnstarted of gnode
+| GRemaining of gnode list
+
+type gpending = (ggen_state * nat) list
+
+val ggen_next :
+  graph -> z list -> ggen_state -> (gnode option * ggen_state) * z list
+
+val gdrain :
+  graph -> nat -> z list -> ggen_state -> gnode list -> ((gnode list * gnode
+  option) * ggen_state) * z list
+
+val gnd_loop :
+  graph -> nat -> nat -> z list -> gpending -> gnode list -> gnode list result
+
+val gnd_visit : graph -> nat -> nat -> z list -> gnode -> gnode list result
+
 val loc_eqb : key list -> key list -> bool
 
 val index_of : key list -> key list list -> nat -> nat option
@@ -1520,6 +1546,8 @@ val op_nd_visit : z list -> z list
 val dec_cell : cell dec
 
 val op_graph : z list -> z list
+
+val op_gnd_visit : z list -> z list
 
 val op_valid_order : z list -> z list
 
